@@ -20,7 +20,7 @@ RULE = (
     "part channels: a problem (1-6 streams, thorough 1-8; 1-3 zones; utilities; printable stream / utility / zone names incl. a dictionary "
     "of awkward ones: NA, null, 1e3, 007, names with commas, quotes, dots, spaces) written by the harness as plain dict, TargetInput "
     "model, value-with-unit dict, JSON file, CSV directory, CSV pair and XLSX workbook with the three template sheets, each run through "
-    "pinch_analysis_service and / or the PinchProblem wrapper with a generated sequence of target / target / export calls, in a third of the cases after the same wrapper object has loaded and targeted another problem (duties doubled) first; "
+    "pinch_analysis_service and / or the PinchProblem wrapper with a generated sequence of target / target / export calls, in a third of the cases after the same wrapper object has loaded and targeted another problem (duties doubled) first - from another file or from the same path rewritten afterwards - and in a third followed by load(model of another problem) on that wrapper; "
     "oracle: every channel returns the targets of the plain-dict service call (record names compared after the root name and the "
     "readers' documented normalisation '.'->'-', digit-only prefixing, trimming; numbers exactly), target() returns the cached object, "
     "the exported workbook's sheet names are unique, <= 31 characters and free of : \\ / ? * [ ]. part sheetnames: generated sets of "
@@ -247,9 +247,11 @@ def eval_channels(case) -> Outcome:
                         other = copy.deepcopy(base)
                         for s_ in other["streams"]:
                             s_["heat_flow"] = s_["heat_flow"] * 2.0
+                        same_path = bool(case.get("preload_same_path"))
                         od = os.path.join(d, "other")
                         os.makedirs(od, exist_ok=True)
-                        osrc = os.path.join(od, "Site" + os.path.splitext(src)[1])
+                        # either another file, or the very same path whose content is rewritten afterwards
+                        osrc = src if same_path else os.path.join(od, "Site" + os.path.splitext(src)[1])
                         if ch == "json":
                             with open(osrc, "w", encoding="utf-8") as fh:
                                 json.dump(other, fh)
@@ -259,6 +261,14 @@ def eval_channels(case) -> Outcome:
                         if okp:
                             call_sut(p.target)
                             out.labels.add("wrapper-reloaded")
+                            if same_path:
+                                out.labels.add("wrapper-reloaded-same-path")
+                        if same_path:  # put the real problem back behind that path
+                            if ch == "json":
+                                with open(src, "w", encoding="utf-8") as fh:
+                                    json.dump(base, fh)
+                            else:
+                                write_xlsx(src, base)
                     okl, _ = call_sut(p.load, src)
                 if not okl:
                     out.fail(f"C16.channel_{ch}_raises", f"{ch}: load raised {p if ch == 'from_json' else _}: {call_sut.last_message}")
@@ -302,6 +312,22 @@ def eval_channels(case) -> Outcome:
                 if p.master_zone is not zone_before:
                     out.fail("C16.target_not_cached", f"{ch}: the zone tree object changed on a repeated target()")
                 compare(ch, r, root, want_norm if (ch == "xlsx" and want_norm is not None) else want)
+                if case.get("reload_model") and ch != "from_json":
+                    # the same wrapper is then handed a validated model of another problem (duties doubled)
+                    other = copy.deepcopy(base)
+                    for s_ in other["streams"]:
+                        s_["heat_flow"] = s_["heat_flow"] * 2.0
+                    S.clear_graph_accumulator()
+                    oko, ref_o = call_sut(pinch_analysis_service, copy.deepcopy(other), root)
+                    okm, model_o = call_sut(TargetInput.model_validate, copy.deepcopy(other))
+                    if oko and okm:
+                        okl2, _ = call_sut(p.load, model_o)
+                        okt2, r2 = call_sut(p.target) if okl2 else (False, None)
+                        if okl2 and okt2:
+                            out.labels.add("wrapper-then-model")
+                            compare(ch + "_then_model", r2, root, targets_view(ref_o, root))
+                        else:
+                            out.fail(f"C16.channel_{ch}_raises", f"{ch}: load(model) / target() after a file load raised: {call_sut.last_message}")
             n_channels += 1
     finally:
         shutil.rmtree(tmp, ignore_errors=True)
@@ -362,7 +388,7 @@ def channel_case(draw, tier):
         us.append(u)
     chans = draw(st.lists(st.sampled_from(["model", "vu", "json", "from_json", "csvdir", "csvpair", "xlsx"]), min_size=3, max_size=5, unique=True))
     ops = draw(st.lists(st.sampled_from(["target", "target", "export"]), min_size=0, max_size=3))
-    case = {"streams": ss, "utilities": us, "channels": chans, "ops": ops, "preload": draw(st.integers(0, 2)) == 0}
+    case = {"streams": ss, "utilities": us, "channels": chans, "ops": ops, "preload": draw(st.integers(0, 2)) == 0, "preload_same_path": draw(st.booleans()), "reload_model": draw(st.integers(0, 2)) == 0}
     if draw(st.integers(0, 3)) == 0:
         case["options"] = draw(st.sampled_from([{"DT_CONT": 10.0}, {"DT_CONT": 2.5, "DT_PHASE_CHANGE": 0.5}, {"DO_VERTICAL_GCC": True}, {"DO_BALANCED_CC": False, "DT_CONT": 7.5}, {"UTILITY_PRICE": 0.0}, {"DT_CONT": 0.0, "UTILITY_PRICE": 0}, {"DO_BALANCED_CC": False}, {"UTILITY_PRICE": 125.5, "ANNUAL_OP_TIME": 8000}]))
     return case
@@ -386,6 +412,6 @@ PARTS = [
     Part("channels", eval_channels, {"quick": 160, "thorough": 4000}, strategy=lambda tier: channel_case(tier), min_nontrivial={"quick": 40, "thorough": 1000}),
     Part("sheetnames", eval_sheetnames, {"quick": 3000, "thorough": 100000}, strategy=lambda tier: sheet_labels(), min_nontrivial={"quick": 1000, "thorough": 30000}),
 ]
-MIN_SHARE = {"channels": {"wrapper-reloaded": 0.1, "awkward-name": 0.2, "zones>=2": 0.22, "ch:xlsx": 0.17, "ch:csvdir": 0.17, "ch:json": 0.2}}
+MIN_SHARE = {"channels": {"wrapper-reloaded": 0.1, "wrapper-then-model": 0.08, "awkward-name": 0.2, "zones>=2": 0.22, "ch:xlsx": 0.17, "ch:csvdir": 0.17, "ch:json": 0.2}}
 
 FUZZ = {"sheetnames": None}  # parts also driven by the coverage-guided supplement (thorough tier)
